@@ -616,6 +616,64 @@ def hashseed_probe(ck, seeds):
     return found, n
 
 
+def run_probe_seq(vseed, names, hashseed=0):
+    env = dict(os.environ, PYTHONPATH=REPO, PYTHONHASHSEED=str(hashseed), PYTHONDONTWRITEBYTECODE="1")
+    try:
+        p = subprocess.run([PY, PROBE_PY, str(vseed), "seq"] + list(names), capture_output=True, text=True, env=env, timeout=240)
+        return json.loads(p.stdout) if p.returncode == 0 else {"error": p.stderr[-800:]}
+    except (subprocess.TimeoutExpired, ValueError) as e:
+        return {"error": repr(e)}
+
+
+def history_order_probe(ck, seeds):
+    """Independent little programs (harness/c11_probe.py, family HS: textually colliding constants of different pseudo-op kinds
+    under assembleConstants, compilations that fail inside a loop body / a subroutine body / late, programs a fresh process
+    REJECTS, healthy ones) built and compiled in one interpreter in several orders (a permutation and its reverse per hash
+    seed, so that every ordered pair occurs); every outcome — TEAL text or error class — must equal the program's outcome
+    alone in a fresh interpreter.  A difference is narrowed to a two-program history when one predecessor suffices."""
+    vseed = ck.seed
+    env = dict(os.environ, PYTHONPATH=REPO, PYTHONHASHSEED="0", PYTHONDONTWRITEBYTECODE="1")
+    p = subprocess.run([PY, PROBE_PY, str(vseed), "names"], capture_output=True, text=True, env=env, timeout=120)
+    if p.returncode != 0:
+        ck.violation("history-order probe could not run: " + p.stderr[-600:], {"kind": "probe-error", "error": p.stderr[-600:]}, no_failing_input=True)
+        return [], 0
+    names = json.loads(p.stdout)
+    orders = []
+    for k, hs in enumerate(seeds):
+        perm = list(names)
+        random.Random(vseed * 1009 + k).shuffle(perm)
+        orders += [(perm, hs), (perm[::-1], hs)]
+    with concurrent.futures.ThreadPoolExecutor(max_workers=NPROC) as ex:
+        fresh = dict(zip(names, ex.map(lambda nm: run_probe_seq(vseed, [nm]), names)))
+        runs = list(ex.map(lambda o: run_probe_seq(vseed, o[0], o[1]), orders))
+    found, n = [], 0
+    for nm, fr in fresh.items():
+        if isinstance(fr, dict):
+            ck.violation("history-order probe: fresh run of %s failed: %s" % (nm, fr["error"]), {"kind": "probe-error", "error": fr["error"]}, no_failing_input=True)
+            return [], 0
+    for (order, hs), res in zip(orders, runs):
+        if isinstance(res, dict):
+            ck.violation("history-order probe could not run: " + res["error"], {"kind": "probe-error", "error": res["error"]}, no_failing_input=True)
+            continue
+        for k, (nm, val) in enumerate(res):
+            n += 1
+            ck.count(("history-order", nm, tuple(order[:k]), hs))
+            if val != fresh[nm][0][1] and not any(f["program"] == nm for f in found):
+                found.append({"kind": "history-differs", "program": nm, "variant_seed": vseed, "hashseed": hs, "history": order[:k],
+                              "fresh": fresh[nm][0][1], "after_history": val})
+    # narrow each difference to one predecessor when possible
+    for f in found[:4]:
+        preds = f["history"]
+        with concurrent.futures.ThreadPoolExecutor(max_workers=NPROC) as ex:
+            pair = list(ex.map(lambda x: run_probe_seq(vseed, [x, f["program"]], f["hashseed"]), preds))
+        for x, res in zip(preds, pair):
+            if not isinstance(res, dict) and res[1][1] != f["fresh"]:
+                f["history"] = [x]
+                f["after_history"] = res[1][1]
+                break
+    return found, n
+
+
 def _prefix_facts(prefix, kind, ident):
     """What the class predicates of the known findings need to know about a hypothetical further compile of an object."""
     methods, subs, earlier, earlier_fp = [], [], 0, 0
@@ -722,6 +780,17 @@ def replay(path):
                 print("VIOLATION property=C11 replay=%s" % path)
                 return 1
         return 0
+    if rp.get("kind") == "history-differs":
+        a = run_probe_seq(rp["variant_seed"], [rp["program"]])
+        b = run_probe_seq(rp["variant_seed"], rp["history"] + [rp["program"]], rp["hashseed"])
+        va, vb = a[0][1], b[-1][1]
+        print("fresh interpreter      :", va[0], (va[1] or "")[:200].replace("\n", " | "))
+        print("after %-17s:" % (rp["history"][-2:],), vb[0], (vb[1] or "")[:200].replace("\n", " | "))
+        if va != vb:
+            print("VIOLATION property=C11 replay=%s" % path)
+            return 1
+        print("no difference any more")
+        return 0
     if rp.get("kind") == "hashseed-differs":
         a = run_probe(rp["variant_seed"], rp["hashseed_a"], [rp["program"]])
         b = run_probe(rp["variant_seed"], rp["hashseed_b"], [rp["program"]])
@@ -811,6 +880,12 @@ def main(argv):
             ck.violation("program %s (harness/c11_probe.py, variant %d, PYTHONHASHSEED=%s): %s" % (
                 f["program"], f["variant_seed"], f["hashseed"], f["what_differs"]), f)
 
+    hist_found, hist_n = history_order_probe(ck, probe_seeds if thorough else probe_seeds[:4])
+    ck.coverage["history_order_probe"] = {"comparisons": hist_n, "differences": len(hist_found)}
+    for f in hist_found[:4]:
+        ck.violation("program %s (harness/c11_probe.py) gives %s after %s in the same interpreter (PYTHONHASHSEED=%s) but %s alone in a fresh one" % (
+            f["program"], f["after_history"][0] if f["after_history"][0] == "ok" else f["after_history"][1], f["history"][-3:], f["hashseed"],
+            f["fresh"][0] if f["fresh"][0] == "ok" else f["fresh"][1]) + (" (different TEAL)" if f["fresh"][0] == f["after_history"][0] == "ok" else ""), f)
     t_phase["hashseed_probe"] = round(time.time() - _t, 1)
     _t = time.time()
     # ---------------- correspondence 2 + implementation-side check (b): sessions ----------------
@@ -828,11 +903,11 @@ def main(argv):
         sessions.append(make_session("repeats-no-history", idx, subjects, random.Random(12345), hs, history=False))
         idx += 1
     per_seed = 8 if thorough else 2
-    for hs in seeds:
-        for _ in range(per_seed):
+    for k, hs in enumerate(seeds):
+        for _ in range(per_seed if (thorough or k < 2) else 1):
             sessions.append(make_session("history", idx, subjects, random.Random(rng.getrandbits(64)), hs))
             idx += 1
-    for hs in seeds[:2]:
+    for hs in (seeds[:2] if thorough else seeds[1:2]):
         sessions.append(make_session("history-no-recovery", idx, subjects, random.Random(rng.getrandbits(64)), hs, recover=False))
         idx += 1
     results = run_many([(spec_of(s), s["hashseed"]) for s in sessions])
